@@ -44,7 +44,28 @@ user keys are compared), evaluated on the kwargs the executed actions really rec
             dependent's actions start                                   shape calc-task-dep-not-before
    changed >= {file deps that are new or whose content/mtime differs from the last success's view}
             shape changed-empty-when-uptodate-false when an uptodate item (False, run_once, or a result_dep) can be false
-            (the known finding), else changed-misses-modified.
+            (the known finding); changed-misses-readded-dep when exactly the missed files are dependencies again after
+            successful execution(s) without them and unchanged since the task last had them (stale per-file state kept by
+            save_success: known finding); else changed-misses-modified.
+   a task with calc_dep gets its verdict (executed / up-to-date) only after each calc_dep task has its final report
+            (executed or up-to-date) in this run                              shape calc-dep-not-run-before
+
+Family 'delayed' (gen_delayed_session; IMPLEMENTATION-SIDE ORACLE ONLY: delayed creation is modelled in Model/Delayed.v
+for C15, not in Model/Inputs.v -- no model side, no theorem of Properties/C10.v speaks about it): the consumers are
+created at RUN time by `doit.create_after` creators -- one dict returned (the created task takes over the node of the
+placeholder of the same name), two sub-tasks yielded (selected by group name / sub-task name(s) / plain `doit run`),
+the same with target_regex (selected by the path of a target) -- with calc_dep (provider returning file_dep / task_dep /
+uptodate; executed this run, or up-to-date = saved values) and getargs (provider executed this run / values from the DB),
+serial and `-n 2 -P thread` (not `-n 2` processes: a task created at run time is pickled whole for the worker, and the
+instrumented closures of this harness cannot be pickled -- doit then stops with its documented runtime error), json / dbm /
+sqlite3 round-robin; histories of 3-5 runs with episodes (edit a calculated
+file, edit a declared file, the calc provider returns something else, the provider saves other values, forget, target
+removed, touch, consumer definition changes, other checker, failing providers, -a).  Same World / run_session / Shadow.judge
+as above (all oracles above apply), plus for this family only:
+   `changed` <= {new or modified file deps} unless a target is missing        shape changed-includes-unmodified
+   a consumer found up-to-date has no new/modified declared-or-calculated file dep, the same dep set as at its last success,
+            no False uptodate item (declared or returned by the calc task), no missing target, some dependency, no -a
+                                                  shapes uptodate-despite-modified-dep / uptodate-despite-reason-to-run
 """
 import contextlib, hashlib, io, json, os, sys
 import common
@@ -65,6 +86,8 @@ NF = 6                      # files 0..3: dependencies, 4..5: targets
 STATUS_Z = {'up-to-date': 0, 'run': 1, 'error': 2}
 PARAM_NAME = {0: 'targets', 1: 'dependencies', 2: 'changed'}
 FLAVOURS = {'serial': [], 'proc': ['-n', '2'], 'thread': ['-n', '2', '-P', 'thread']}
+DELAYED_REGEX = r'.*/f[45]$'   # target_regex of the delayed creators (files 4, 5 are the targets)
+BACKENDS = ('json', 'dbm', 'sqlite')
 
 
 def mask(xs):
@@ -327,6 +350,273 @@ def gen_session(rng, idx, mode='random'):
                 backend=rng.choice(['json', 'dbm', 'sqlite'] if rv else ['json'] * 6 + ['dbm', 'sqlite']))
 
 
+# ------------------------------------------------------------------ generation: consumers created at run time
+DSHAPES = ('single', 'sub', 'single', 'sub', 'regex-single', 'single', 'sub', 'regex-sub')
+
+
+def gen_delayed_session(rng, idx, k):
+    """family 'delayed': the consumers are created at RUN time by a `doit.create_after` creator (t['delayed'] =
+    dict(executed=<id of the trigger task or None>, regex=<creator has a target_regex>)):
+       single       the creator returns ONE dict: the created task takes over the node of the placeholder of the same name
+       sub          the creator yields two sub-tasks (T<g>:s<a>, T<g>:s<b>); selected by group name, by sub-task name(s),
+                    or by a plain `doit run`
+       regex-*      the same with target_regex on the creator; also selected by the path of a target
+    static tasks: T0 = the trigger (`executed`), a getargs provider (values u0/u1; with file deps, so that it can be
+    up-to-date and its values come from the DB), a calc provider returning file_dep / task_dep / uptodate (with file deps:
+    up-to-date = its saved values are used; without: it re-executes in every run), a task the calc provider may return
+    as task_dep.  History: run; then per run one or two episodes (nothing / edit a calculated file / edit a declared file /
+    the calc provider returns something else / the getargs provider saves other values / forget / target removed /
+    touch / the consumer's definition changes / other checker)."""
+    tasks = []
+    shape = DSHAPES[k % len(DSHAPES)]
+    regex, sub = shape.startswith('regex'), shape.endswith('sub')
+
+    def new(**kw):
+        t = dict(kind='plain', file_dep=[], targets=[], uptodate=[], values=[], result=None, getargs=[], setup=[],
+                 task_dep=[], calc_dep=[], group=False, sub_of=None, action='py', params=[], extra_dep=[],
+                 noval=rng.choice(NOVAL), delayed=None)
+        t.update(kw)
+        tasks.append(t)
+        return len(tasks) - 1
+
+    def rdeps(p):
+        return sorted(rng.sample(range(4), rng.choice([1, 1, 2]))) if rng.random() < p else []
+
+    def rvalues():
+        ks = rng.sample([0, 1], rng.choice([1, 2, 2]))
+        return sorted((kk, rng.choice([None, 0, 1, 2, 3, 5, 7])) for kk in ks)
+
+    def rutd():
+        r = rng.random()
+        return [('bool', True)] if r < 0.2 else [('run_once',)] if r < 0.3 else []
+
+    pre = new()                                   # T0: no dependencies, executed in every run
+    executed = pre if rng.random() < 0.85 else None
+    use_ga = rng.random() < 0.55
+    use_calc = (not use_ga) or rng.random() < 0.8
+    prov = extra = calc = None
+    if use_ga:
+        prov = new(file_dep=rdeps(0.85), uptodate=rutd(), values=rvalues(), result=rng.choice([None, 0, 1, 2]))
+
+    def calc_values(old=None):
+        cv = []
+        for _ in range(20):
+            cv = [(2, mask(sorted(rng.sample(range(4), rng.choice([1, 1, 2])))))]
+            if extra is not None and rng.random() < 0.5:
+                cv.append((3, mask([extra])))
+            r = rng.random()
+            if r < 0.12:
+                cv.append((4, 0))                 # uptodate: [False]
+            elif r < 0.3:
+                cv.append((4, 1))                 # uptodate: [True]
+            if cv != old:
+                break
+        return cv
+    if use_calc:
+        if rng.random() < 0.5:
+            extra = new(file_dep=rdeps(0.5))
+        calc = new(kind='calc', file_dep=rdeps(0.65), values=calc_values())
+    dl = dict(executed=executed, regex=regex)
+
+    def consumer(ci, with_calc, with_ga, **kw):
+        gas, params, setup = [], [0, 1, 2], []
+        action = rng.choice(['py', 'py', 'py', 'cmd'])
+        if with_ga:
+            key = rng.choice([kk for kk, _ in tasks[prov]['values']] * 3 + [None, None, rng.choice([0, 1])])
+            if key is None:
+                action = 'py'
+            gas = [(3, prov, key)]
+            params.append(3)
+            if rng.random() < 0.4:
+                setup = [prov]
+        rng.shuffle(params)
+        return new(kind='consumer', file_dep=rdeps(0.85), targets=[4 + ci] if (regex or rng.random() < 0.4) else [],
+                   uptodate=rng.choice([[], [], [], [], [('bool', False)], [('bool', True)]]), getargs=gas, setup=setup,
+                   params=params, action=action, calc_dep=[calc] if with_calc else [], **kw)
+    if sub:
+        g = new(group=True, kind='group', delayed=dl)
+        a = consumer(0, use_calc, use_ga and rng.random() < 0.5, sub_of=g)
+        b = consumer(1, use_calc and rng.random() < 0.5, use_ga, sub_of=g)
+        tasks[g]['task_dep'] = [a, b]
+        consumers = [a, b]
+    else:
+        g = None
+        consumers = [consumer(0, use_calc, use_ga, delayed=dl)]
+    n = len(tasks)
+    cmds = [('SetChecker', rng.choice(['md5', 'md5', 'md5', 'ts']))]
+    for f in range(NF):
+        if f < 4 or rng.random() < 0.5:
+            cmds.append(('Write', f, rng.choice([0, 1, 2, 3])))
+    for i in range(n):
+        cmds.append(('SetDef', i))
+    live = [dict(t) for t in tasks]
+
+    def content_of(f):
+        c = None
+        for cm in cmds:
+            if cm[0] == 'Write' and cm[1] == f:
+                c = cm[2]
+            elif cm[0] == 'Delete' and cm[1] == f:
+                c = None
+        return c
+
+    def edit(f):
+        cmds.append(('Write', f, rng.choice([c for c in [0, 1, 2, 3] if c != content_of(f)])))
+
+    def setdef(i, **kw):
+        t = dict(live[i])
+        t.update(kw)
+        live[i] = t
+        cmds.append(('SetDef', i, t))
+        return t
+
+    def episode():
+        r = rng.random()
+        if r < 0.10:
+            return 'nothing'
+        if r < 0.32 and calc is not None:
+            m = dict(live[calc]['values']).get(2, 0)
+            fs = [f for f in range(4) if m >> f & 1]
+            if fs:
+                # preferably a file the calc provider itself does not depend on: it stays up-to-date (saved values)
+                edit(rng.choice([f for f in fs if f not in live[calc]['file_dep']] or fs))
+                return 'edit-calculated-file'
+        if r < 0.44:
+            ci = rng.choice(consumers)
+            if live[ci]['file_dep']:
+                edit(rng.choice(live[ci]['file_dep']))
+                return 'edit-declared-file'
+        if r < 0.60 and calc is not None:
+            t = setdef(calc, values=calc_values(live[calc]['values']))
+            if t['file_dep'] and rng.random() < 0.8:
+                edit(rng.choice(t['file_dep']))   # else: the provider stays up-to-date, its SAVED values still count
+            return 'calc-returns-other'
+        if r < 0.70 and prov is not None:
+            old = live[prov]['values']
+            for _ in range(20):
+                nv = [] if rng.random() < 0.25 else rvalues()
+                if nv != old:
+                    break
+            t = setdef(prov, values=nv, noval=rng.choice(NOVAL))
+            if t['file_dep']:
+                edit(rng.choice(t['file_dep']))
+            return 'provider-saves-other-values'
+        if r < 0.80:
+            cmds.append(('Forget', rng.choice(consumers * 2 + [x for x in (calc, prov) if x is not None])))
+            return 'forget'
+        if r < 0.87:
+            tg = [f for ci in consumers for f in live[ci]['targets']]
+            if tg:
+                f = rng.choice(tg)
+                cmds.append(('Delete', f) if content_of(f) is not None else ('Write', f, 0))
+                return 'target-removed-or-created'
+        if r < 0.91:
+            cmds.append(('Touch', rng.randrange(4)))
+            return 'touch'
+        if r < 0.97:
+            ci = rng.choice(consumers)
+            if rng.random() < 0.5:
+                setdef(ci, uptodate=rng.choice([[], [('bool', False)], [('bool', True)]]))
+            else:
+                setdef(ci, file_dep=rdeps(0.9))
+            return 'consumer-definition-changes'
+        cmds.append(('SetChecker', rng.choice(['md5', 'ts'])))
+        return 'checker'
+
+    def selection():
+        if sub:
+            opts = [('args', [g]), ('args', [g]), ('args', [a]), ('args', [b]), ('args', [a, b]), ('plain', [])]
+        else:
+            c = consumers[0]
+            opts = [('args', [c]), ('args', [c]), ('plain', [])]
+            if calc is not None:
+                opts += [('args', [calc, c]), ('args', [c, calc])]
+        if regex:
+            tg = [f for ci in consumers for f in tasks[ci]['targets']]
+            opts += [('args', [('f', rng.choice(tg))])] * 3
+        return rng.choice(opts)
+    episodes = []
+    for r in range(rng.choice([3, 4, 4, 5])):
+        eps = []
+        if r > 0:
+            eps = [episode() for _ in range(rng.choice([1, 1, 1, 2]))]
+        how, sel = selection()
+        fails = [i for i in (calc, prov) if i is not None and rng.random() < 0.04]
+        flavour = rng.choice(['serial', 'serial', 'thread'])
+        cmds.append(('Run', rng.random() < 0.06, fails, sel, flavour, how))
+        episodes.append(eps)
+    return dict(idx=idx, mode='delayed', shape=shape, tasks=tasks, cmds=cmds, backend=BACKENDS[k % 3], episodes=episodes,
+                consumers=consumers)
+
+
+def delayed_story(sess):
+    """the session of the delayed family written out (names, creators, command lines) -- for the replay file"""
+    tasks = sess['tasks']
+    names = ['T%d' % i if t['sub_of'] is None else 'T%d:s%d' % (t['sub_of'], i) for i, t in enumerate(tasks)]
+
+    def tdesc(t):
+        d = []
+        if t['file_dep']:
+            d.append('file_dep=%s' % ['f%d' % f for f in t['file_dep']])
+        if t['targets']:
+            d.append('targets=%s' % ['f%d' % f for f in t['targets']])
+        if t['uptodate']:
+            d.append('uptodate=%s' % [u[1] if u[0] == 'bool' else 'run_once' for u in t['uptodate']])
+        if t['calc_dep']:
+            d.append('calc_dep=%s' % [names[j] for j in t['calc_dep']])
+        if t['getargs']:
+            d.append('getargs=%s' % {pname(a): (names[s_], None if k is None else 'u%d' % k) for a, s_, k in t['getargs']})
+        if t['setup']:
+            d.append('setup=%s' % [names[j] for j in t['setup']])
+        if t['kind'] == 'calc':
+            v = dict(t['values'])
+            r = {}
+            if 2 in v:
+                r['file_dep'] = ['f%d' % f for f in range(16) if v[2] >> f & 1]
+            if 3 in v:
+                r['task_dep'] = [names[j] for j in range(16) if v[3] >> j & 1]
+            if 4 in v:
+                r['uptodate'] = [bool(v[4])]
+            d.append('action returns %s' % r)
+        elif t['values']:
+            d.append('action returns %s' % {'u%d' % k: x for k, x in t['values']})
+        if t['kind'] == 'consumer':
+            d.append('%s-action logs %s' % (t['action'], [pname(p) for p in t['params']]))
+        return ', '.join(d)
+    lines = []
+    for i, t in enumerate(tasks):
+        dl = t.get('delayed')
+        head = names[i]
+        if dl:
+            deco = []
+            if dl.get('executed') is not None:
+                deco.append("executed='%s'" % names[dl['executed']])
+            if dl.get('regex'):
+                deco.append("target_regex=%r" % DELAYED_REGEX)
+            head = '@create_after(%s) task_%s %s' % (', '.join(deco), names[i], 'yields its sub-tasks' if t['group'] else 'returns ONE dict (takes over the placeholder)')
+        elif t['sub_of'] is not None and tasks[t['sub_of']].get('delayed'):
+            head += ' (sub-task yielded by the delayed creator)'
+        lines.append('%s: %s' % (head, tdesc(t)))
+    lines.append('backend=%s' % sess.get('backend'))
+    for c in sess['cmds']:
+        c = list(c)
+        if c[0] == 'Write':
+            lines.append('write f%d = %r' % (c[1], CONTENT[c[2]].decode()))
+        elif c[0] in ('Touch', 'Delete'):
+            lines.append('%s f%d' % (c[0].lower(), c[1]))
+        elif c[0] == 'SetChecker':
+            lines.append('check_file_uptodate = %s' % c[1])
+        elif c[0] == 'SetDef' and len(c) > 2:
+            lines.append('dodo changes: %s: %s' % (names[c[1]], tdesc(c[2])))
+        elif c[0] in ('Forget', 'Ignore'):
+            lines.append('doit %s %s' % (c[0].lower(), names[c[1]]))
+        elif c[0] == 'Run':
+            sel = [] if (len(c) > 5 and c[5] == 'plain') else [names[i] if isinstance(i, int) else '<dir>/f%d' % i[1] for i in c[3]]
+            lines.append('doit run %s%s' % (' '.join(FLAVOURS[c[4]] + (['-a'] if c[1] else []) + sel),
+                                            ('   [actions of %s fail]' % [names[i] for i in c[2]]) if c[2] else ''))
+    return lines
+
+
 # ------------------------------------------------------------------ Coq rendering
 def nl(xs):
     return '[' + '; '.join(str(x) for x in xs) + ']%N'
@@ -469,6 +759,8 @@ class World:
                 out['file_dep'] = [self.path(f) for f in range(16) if x >> f & 1]
             elif k == 3:
                 out['task_dep'] = [self.names[j] for j in range(16) if x >> j & 1]
+            elif k == 4:
+                out['uptodate'] = [bool(x)]       # delayed family only: a calc task returning an uptodate item
             else:
                 out['u%d' % k] = x
         return out
@@ -533,6 +825,17 @@ class World:
                 def creator(i=i):
                     return self.task_dict(i, fails)
             creator.__name__ = 'task_T%d' % i
+            dl = t.get('delayed')
+            if dl:
+                # delayed family: the task(s) of this creator exist only at run time (doit.create_after); a creator
+                # returning ONE dict gives the task that takes over the node of the placeholder of the same name
+                from doit.loader import create_after
+                kw = {}
+                if dl.get('executed') is not None:
+                    kw['executed'] = self.names[dl['executed']]
+                if dl.get('regex'):
+                    kw['target_regex'] = DELAYED_REGEX
+                creator = create_after(**kw)(creator)
             ns['task_T%d' % i] = creator
         return ns
 
@@ -681,10 +984,17 @@ def run_session(ctx, sess, out):
         elif k == 'Ignore':
             w.doit(['ignore', w.names[c[1]]])
         elif k == 'Run':
-            _, always, fails, sel, flavour = c
             if os.path.exists(w.log):
                 os.remove(w.log)
-            rc, txt = w.doit(['run'] + FLAVOURS[flavour] + (['-a'] if always else []) + [w.names[i] for i in sel], fails)
+            _, always, fails, sel, flavour = c[:5]
+            # delayed family: c[5] == 'plain' is `doit run` without task names; a selection item ['f', k] is the path of
+            # file k (a target matched by the creator's target_regex)
+            sel_args = [] if (len(c) > 5 and c[5] == 'plain') else [w.names[i] if isinstance(i, int) else w.path(i[1]) for i in sel]
+            rc, txt = w.doit(['run'] + FLAVOURS[flavour] + (['-a'] if always else []) + sel_args, fails)
+            # placeholders `_regex_target_<file>:<creator>` made for a target selected on the command line are not tasks
+            # of the session
+            Rec.events = [ev for ev in Rec.events if ev[1] is None or ev[1] in w.ids]
+            Rec.verdicts = [vd for vd in Rec.verdicts if vd[0] in w.ids]
             logged = []
             if os.path.exists(w.log):
                 for line in open(w.log):
@@ -740,6 +1050,9 @@ class Shadow:
     def __init__(self):
         self.last = {}
         self.hist = {}      # per task: the user values of each of its successful executions, oldest first
+        self.story = None   # delayed family: the session written out, for the replay file
+        self.stale = {}     # per task: file -> its state at the most recent successful execution that had it as a dependency,
+        self.stale_ck = {}  #           since the task's record was last removed (failure / forget / other checker)
 
     def judge(self, sess, w, runs, out):
         tasks = sess['tasks']
@@ -783,10 +1096,102 @@ class Shadow:
                 if not vals:
                     return when + ':NO-VALUES-after-values'
                 return when + ':other-values-than-previous-execution'
+            delayed = sess.get('mode') == 'delayed'
+            evs = obs['events']
+
+            def mkcase(i, t):
+                case = dict(session=sess['idx'], task=i, spec={k: v for k, v in t.items()}, tasks=sess['tasks'], cmds=sess['cmds'], backend=sess['backend'])
+                if delayed:
+                    if self.story is None:
+                        self.story = delayed_story(sess)
+                    case.update(mode='delayed', task_name=names[i], run=obs['run_no'], story=self.story)
+                return case
+
+            def calc_latest(cdep, key):
+                """what the calc task returned for key 2 (file_dep) / 3 (task_dep) / 4 (uptodate) in its most recent successful
+                execution: this run's if it succeeded in this run, else the saved one"""
+                if names[cdep] in succeeded:
+                    return dict(live[cdep]['values']).get(key)
+                if cdep in self.last:
+                    return self.last[cdep].get({2: 'calc_file', 3: 'calc_task', 4: 'calc_utd'}[key])
+                return None
+
+            def expected_fd(t):
+                fd = set(t['file_dep'])
+                for cdep in t['calc_dep']:
+                    src = calc_latest(cdep, 2)
+                    if src:
+                        fd |= {f for f in range(16) if src >> f & 1}
+                return fd
+
+            def modified_since(fd, prev):
+                """the files of fd that are new for the task or differ from what its last successful execution saw"""
+                must = set()
+                for f in fd:
+                    if f not in obs['fsview']:
+                        continue
+                    if prev is None or f not in prev['view'] or prev['ck'] != obs['ck']:
+                        must.add(f)
+                    else:
+                        m0, s0, c0 = prev['view'][f]
+                        m1, s1, c1 = obs['fsview'][f]
+                        if c0 != c1 or (obs['ck'] == 'ts' and m0 != m1):
+                            must.add(f)
+                return must
+
+            def calc_utd_false(t):
+                return any(calc_latest(cd, 4) == 0 for cd in t['calc_dep'])
+            # ---- a task with calc_dep is checked / executed only after each of its calc_dep tasks has its final report
+            #      (executed or up-to-date) in this run: otherwise what the calc task returns cannot reach it
+            for n_, (e, tn, _) in enumerate(evs):
+                if e not in ('execute', 'uptodate') or tn is None:
+                    continue
+                i = w.ids[tn]
+                for cdep in live[i]['calc_dep']:
+                    fin = [m for m, (e2, tn2, _) in enumerate(evs[:n_]) if tn2 == names[cdep] and e2 in ('success', 'uptodate')]
+                    if not fin:
+                        out.violations.append(dict(what='task %s%s was %s although its calc_dep task %s had not been executed (nor found up-to-date) before in this run: the file_dep / task_dep / uptodate it returns cannot reach %s'
+                                                        % (tn, ' (created at run time by a create_after creator)' if delayed else '',
+                                                           'executed' if e == 'execute' else 'found up-to-date', names[cdep], tn),
+                                                   shape='calc-dep-not-run-before', case=mkcase(i, live[i])))
+                    elif delayed:
+                        out.count('delayed:calc-provider-before-consumer:' + ('executed-this-run' if names[cdep] in succeeded else 'up-to-date(saved values)'))
+            # ---- delayed family: a consumer found up-to-date has no reason to run that this oracle can see
+            if delayed:
+                for e, tn, _ in evs:
+                    if e != 'uptodate' or tn is None or live[w.ids[tn]]['kind'] != 'consumer':
+                        continue
+                    i = w.ids[tn]
+                    t = live[i]
+                    prev = self.last.get(i)
+                    fd = expected_fd(t)
+                    why = []
+                    # (no record at all is not a reason by itself: a task without file dependencies whose uptodate items are all
+                    #  true is up-to-date even if it never ran; with file dependencies they are all new = `must` below)
+                    if obs['cmd'][1]:
+                        why.append('--always-execute was given')
+                    if any(u == ('bool', False) for u in t['uptodate']) or calc_utd_false(t):
+                        why.append('an uptodate item (declared or returned by the calc_dep task) is False')
+                    if [f for f in t['targets'] if f not in obs['fsview']]:
+                        why.append('a target does not exist')
+                    n_utd = (len(t['uptodate']) + len([cd for cd in t['calc_dep'] if calc_latest(cd, 4) is not None])
+                             + len([s_ for _, s_, _ in t['getargs'] if s_ not in t['setup']]))      # the last: result_dep items
+                    if not fd and not n_utd:
+                        why.append('it has neither a file dependency nor an uptodate item')
+                    must = modified_since(fd, prev)
+                    if must:
+                        why.append('file dependencies %s (declared + calculated: %s) are new or modified since its last successful execution' % (sorted(must), sorted(fd)))
+                    if prev is not None and set(prev['view']) != fd:
+                        why.append('its file dependencies were %s at its last successful execution and are %s now' % (sorted(prev['view']), sorted(fd)))
+                    if why:
+                        out.violations.append(dict(what='task %s (created at run time by a create_after creator) was found up-to-date although %s' % (tn, '; '.join(why)),
+                                                   shape='uptodate-despite-modified-dep' if must else 'uptodate-despite-reason-to-run', case=mkcase(i, t)))
+                    else:
+                        out.count('delayed:consumer-up-to-date:nothing-changed')
             for l in obs['logged']:
                 i = w.ids[l['task']]
                 t = live[i]
-                case = dict(session=sess['idx'], task=i, spec={k: v for k, v in t.items()}, tasks=sess['tasks'], cmds=sess['cmds'], backend=sess['backend'])
+                case = mkcase(i, t)
                 if 'kw' not in l:
                     continue
                 kw = l['kw']
@@ -825,20 +1230,9 @@ class Shadow:
                                                                    group_source=bool(tasks[s]['group']), source_history=history_kind(j),
                                                                    runner=obs['cmd'][4], backend=sess['backend'])))
                 # ---- dependencies / targets
-                fd = set(t['file_dep'])
-                for cdep in t['calc_dep']:
-                    cv, has = latest(cdep) if False else (None, False)
-                    ct = live[cdep]
-                    # the calc task's file_dep as last saved / produced in this run
-                    src = None
-                    if names[cdep] in succeeded:
-                        src = dict(ct['values']).get(2)
-                    elif cdep in self.last:
-                        src = self.last[cdep].get('calc_file')
-                    if src:
-                        fd |= {f for f in range(16) if src >> f & 1}
+                # declared + the calc task's file_dep as last saved / produced in this run
+                fd = expected_fd(t)
                 # ---- task_dep returned by a calc task: finished before this task's actions started
-                evs = obs['events']
                 my_exec = [n for n, (e, tn, _) in enumerate(evs) if e == 'execute' and tn == l['task']]
                 for cdep in t['calc_dep']:
                     cmask = None
@@ -855,7 +1249,7 @@ class Shadow:
                             out.count('calc_dep:returned-task-dep-finished-first')
                 if 'dependencies' in kw and 'dependencies' not in ga:
                     if {w.fileno(p) for p in kw['dependencies']} != fd or len(kw['dependencies']) != len(fd):
-                        out.violations.append(dict(what='`dependencies` %s differ from the current file_dep %s' % (kw['dependencies'], sorted(fd)), shape='dependencies-differ', case=case))
+                        out.violations.append(dict(what='`dependencies` %s received by %s differ from its current file_dep (declared + returned by its calc_dep task) %s' % (sorted(os.path.basename(p) for p in kw['dependencies']), l['task'], ['f%d' % f for f in sorted(fd)]), shape='dependencies-differ', case=case))
                 if 'targets' in kw and 'targets' not in ga:
                     if [w.fileno(p) for p in kw['targets']] != list(t['targets']):
                         out.violations.append(dict(what='`targets` %s differ from the current targets %s' % (kw['targets'], t['targets']), shape='targets-differ', case=case))
@@ -863,20 +1257,29 @@ class Shadow:
                 if 'changed' in kw and 'changed' not in ga:
                     ch = {w.fileno(p) for p in kw['changed']}
                     prev = self.last.get(i)
-                    must = set()
-                    for f in fd:
-                        if f not in obs['fsview']:
-                            continue
-                        if prev is None or f not in prev['view'] or prev['ck'] != obs['ck']:
-                            must.add(f)
-                        else:
-                            m0, s0, c0 = prev['view'][f]
-                            m1, s1, c1 = obs['fsview'][f]
-                            if c0 != c1 or (obs['ck'] == 'ts' and m0 != m1):
-                                must.add(f)
+                    must = modified_since(fd, prev)
+                    if delayed:
+                        # the other direction: on the path of get_status that compares the files, `changed` holds nothing else
+                        # (a missing target makes it ALL file dependencies)
+                        if not (ch <= must) and not [f for f in t['targets'] if f not in obs['fsview']]:
+                            out.violations.append(dict(what='`changed` %s contains file dependencies %s that are neither new nor modified since the last successful execution of %s'
+                                                            % (sorted(ch), sorted(ch - must), l['task']), shape='changed-includes-unmodified', case=case))
+                        elif ch == must:
+                            out.count('delayed:changed==exactly-the-new-or-modified-files' + (':nonempty' if ch else ':empty'))
                     if not must <= ch:
-                        utd_can_be_false = any(u == ('bool', False) or u[0] == 'run_once' for u in t['uptodate']) or any(s not in t['setup'] for _, s, _ in t['getargs'])
-                        if not ch and utd_can_be_false:
+                        # a file that is a dependency again after successful execution(s) without it, and has not changed since
+                        # the task last had it: the per-file state saved THEN is still in the DB (save_success never drops the
+                        # entries of files that left file_dep), so get_status does not list it
+                        stale = self.stale.get(i, {})
+                        readded = {f for f in must - ch if prev is not None and prev['ck'] == obs['ck'] and f not in prev['view'] and f in stale
+                                   and stale[f][2] == obs['fsview'][f][2] and (obs['ck'] != 'ts' or stale[f][0] == obs['fsview'][f][0])}
+                        utd_can_be_false = (any(u == ('bool', False) or u[0] == 'run_once' for u in t['uptodate']) or any(s not in t['setup'] for _, s, _ in t['getargs'])
+                                            or calc_utd_false(t))
+                        if readded and readded == must - ch:
+                            out.violations.append(dict(what='`changed` %s misses %s: file dependencies that the last successful execution of %s did NOT have (they were dropped from its file_dep, and are '
+                                                            'back now); their state saved by an EARLIER execution is still in the DB, so they count as unmodified' % (sorted(ch), sorted(readded), l['task']),
+                                                       shape='changed-misses-readded-dep', case=case))
+                        elif not ch and utd_can_be_false:
                             out.violations.append(dict(what='`changed` is empty although file dependencies %s are new/modified since the last successful execution: get_status returned at its uptodate-false exit before computing dep_changed' % sorted(must),
                                                        shape='changed-empty-when-uptodate-false', case=case))
                         else:
@@ -900,7 +1303,7 @@ class Shadow:
                 if not causes:
                     out.violations.append(dict(what='task %s was not executed (%s) although the most recent successful execution of every getargs source saved what it asks for' % (tn, x[1][-120:]),
                                                shape='getargs-error-without-cause',
-                                               case=dict(session=sess['idx'], task=i, spec=dict(t), tasks=sess['tasks'], cmds=sess['cmds'], backend=sess['backend'])))
+                                               case=mkcase(i, t)))
             # ---- shadow update, in event order
             for e, tn, _ in obs['events']:
                 if tn is None:
@@ -918,17 +1321,24 @@ class Shadow:
                     self.last[i] = dict(values=saved_now(i),
                                         calc_file=dict(t['values']).get(2) if t['kind'] == 'calc' else None,
                                         calc_task=dict(t['values']).get(3) if t['kind'] == 'calc' else None,
+                                        calc_utd=dict(t['values']).get(4) if t['kind'] == 'calc' else None,
                                         view={f: obs['fsview'][f] for f in (fd if fd is not None else t['file_dep']) if f in obs['fsview']},
                                         ck=obs['ck'])
                     if fd is None:
                         self.last[i]['view'] = {f: obs['fsview'][f] for f in obs['fsview']}   # unknown set: do not demand
+                    if self.stale_ck.get(i) != obs['ck']:
+                        self.stale[i] = {}                 # state saved by another checker is removed
+                    self.stale_ck[i] = obs['ck']
+                    self.stale.setdefault(i, {}).update(self.last[i]['view'])
                 elif e == 'failure':
                     self.last.pop(i, None)
                     self.hist.pop(i, None)
+                    self.stale.pop(i, None)
 
     def forget(self, i):
         self.last.pop(i, None)
         self.hist.pop(i, None)
+        self.stale.pop(i, None)
 
 
 def judge_session(sess, w, runs, out):
@@ -978,10 +1388,22 @@ def run(ctx):
                 'or some executed task received a non-empty `changed`, or a calc_dep result extended `dependencies`; '
                 'input_distribution source-history:* / getargs-error:* say how the values a consumer had to see relate to '
                 'the earlier successful executions of the source (NO-VALUES-after-values = re-executed with no values)')
-    nsess, nrev = ctx.n(120, 600), ctx.n(110, 500)
+    out.rule += ('; family delayed (consumers created at run time by create_after creators; implementation-side oracle only): '
+                 'a (session, run) counts when a delayed-created consumer was executed and received getargs values, a non-empty '
+                 '`changed`, or `dependencies` extended by its calc_dep task; its `dependencies` must be declared + calculated file_dep, '
+                 '`changed` exactly the new/modified ones (all of them when a target is missing; [] on the uptodate-false exit = the '
+                 'known finding), `targets` its targets, getargs values the most recent successfully saved ones of the provider; the calc '
+                 'provider has its final report before the consumer is checked; a consumer found up-to-date has no new/modified '
+                 'declared or calculated file dependency (with none on record all are new), no False uptodate item, no missing target')
+    nsess, nrev, ndel = ctx.n(120, 600), ctx.n(110, 500), ctx.n(144, 720)
     cases, metas = [], []
-    for idx in range(nsess + nrev):
-        sess = gen_session(ctx.rng, idx, 'random' if idx < nsess else 'revalue')
+    for idx in range(nsess + nrev + ndel):
+        is_delayed = idx >= nsess + nrev
+        if is_delayed:
+            sess = gen_delayed_session(ctx.rng, idx, idx - nsess - nrev)
+            out.count('delayed:shape:' + sess['shape'])
+        else:
+            sess = gen_session(ctx.rng, idx, 'random' if idx < nsess else 'revalue')
         out.count('sessions:' + sess['mode'])
         try:
             ints, runs, w = run_session(ctx, sess, out)
@@ -989,11 +1411,17 @@ def run(ctx):
             import traceback
             ints, runs, w = [97], [], None
             ctx.notes.append('session %d: %s' % (idx, traceback.format_exc()[-600:]))
-        defs, expr = model_case(sess, str(idx))
-        cases.append(dict(model=expr, defs=defs, expected=ints, desc=dict(session=idx, kind='session')))
+        if not is_delayed:
+            # (delayed creation is modelled in Model/Delayed.v for C15, not in Model/Inputs.v: no model side for that family)
+            defs, expr = model_case(sess, str(idx))
+            cases.append(dict(model=expr, defs=defs, expected=ints, desc=dict(session=idx, kind='session')))
+        elif ints == [97]:
+            out.violations.append(dict(what='a session of the delayed family could not be executed: ' + (ctx.notes[-1][-300:] if ctx.notes else ''),
+                                       shape='delayed-session-crash', case=dict(session=idx, mode='delayed', tasks=sess['tasks'], cmds=sess['cmds'], backend=sess['backend'])))
         metas.append(sess)
         if w is not None:
-            cases += static_cases(sess, w, runs)
+            if not is_delayed:
+                cases += static_cases(sess, w, runs)
             try:
                 judge_session(sess, w, runs, out)
             except Exception:  # noqa
@@ -1006,6 +1434,8 @@ def run(ctx):
             out.count('runner:' + c[4])
             out.count('always' if c[1] else 'normal')
             out.count('backend:' + sess['backend'])
+            if is_delayed:
+                delayed_counts(out, sess, w, obs, idx, ri)
             for l in obs['logged']:
                 i = w.ids[l['task']]
                 t = obs['live'][i]
@@ -1028,6 +1458,15 @@ def run(ctx):
                     out.count('failure:%d' % fail_code(*x))
         if len(out.samples) < 4 and runs:
             out.samples.append(dict(session=idx, tasks=sess['tasks'], cmds=sess['cmds'][:30], observed=ints[:80]))
+        if is_delayed and runs and not out.extra.get('delayed_sample') and any(
+                l['task'] == w.names[i] and len(l.get('kw', {}).get('dependencies', [])) > len(obs['live'][i]['file_dep'])
+                for obs in runs[1:] for l in obs['logged'] for i in sess['consumers']):
+            out.extra['delayed_sample'] = dict(
+                session=idx, shape=sess['shape'], story=delayed_story(sess),
+                observed=[dict(run=obs['run_no'], exit=obs['rc'], events=[(e, tn) for e, tn, _ in obs['events'] if e != 'execute'],
+                               received=[dict(task=l['task'], **{kk: ([os.path.basename(p) for p in v] if kk in ('dependencies', 'changed', 'targets') else v)
+                                                                 for kk, v in l.get('kw', {}).items()})
+                                         for l in obs['logged'] if w.ids[l['task']] in sess['consumers']]) for obs in runs])
         if w is not None:
             import shutil
             shutil.rmtree(w.dir, ignore_errors=True)
@@ -1036,13 +1475,66 @@ def run(ctx):
         out.mismatches.append(dict(case=cases[i]['desc'], impl=cases[i]['expected'][:400], model=got[:400],
                                    session=metas[cases[i]['desc']['session']] if cases[i]['desc'].get('kind') == 'session' else None))
     out.evaluations += len([c for c in cases if c['desc'].get('kind') != 'session'])
-    out.extra['notes'] = ctx.notes[:10]
+    out.extra['notes'] = ctx.notes[:10] + [
+        'family delayed (consumers created at run time by create_after creators: single dict taking over the placeholder, yielded sub-tasks, '
+        'target_regex; calc_dep returning file_dep/task_dep/uptodate; getargs; serial and -n 2 -P thread through DoitMain; json/dbm/sqlite3 '
+        'round-robin; no process runner: run-time created tasks must be picklable, the instrumented closures are not) is judged by the IMPLEMENTATION-SIDE oracle only (Shadow.judge): delayed creation is modelled in coq/Model/Delayed.v '
+        'for C15, not in Model/Inputs.v; no theorem of Properties/C10.v speaks about delayed-created tasks']
+    out.extra['delayed_family'] = dict(sessions=ndel, runs=out.distribution.get('delayed:runs', 0))
     out.extra['trusted_base'] = ['Python inspect-based keyword binding of _prepare_kwargs and %-formatting of CmdAction (oracles; exercised, not modelled)',
                                  'the canonical depth-first schedule of Inputs.visit (other schedules: compared on the serial, process and thread runners)']
     out.assumptions = ['task params / pos_arg not modelled (options start empty)',
                        'result_dep on a group source not modelled: group sources are explicit setup-tasks in the generated graphs',
                        'values are ints/None; lists returned by a calc task are coded as bit masks over 16 files/tasks']
     return out
+
+
+def delayed_counts(out, sess, w, obs, idx, ri):
+    """input distribution of the delayed family, and its distinct non-trivial (session, run) keys"""
+    c = obs['cmd']
+    out.count('delayed:runs')
+    out.count('delayed:runner:' + c[4])
+    out.count('delayed:backend:' + sess['backend'])
+    out.count('delayed:exit:%s' % obs['rc'])
+    sel = c[3]
+    if len(c) > 5 and c[5] == 'plain':
+        how = 'plain-doit-run'
+    elif any(not isinstance(i, int) for i in sel):
+        how = 'by-target(target_regex)'
+    elif any(sess['tasks'][i]['group'] for i in sel):
+        how = 'by-group-name'
+    elif any(sess['tasks'][i]['sub_of'] is not None for i in sel):
+        how = 'by-sub-task-name'
+    else:
+        how = 'by-name' + ('+calc-provider' if len(sel) > 1 else '')
+    out.count('delayed:selection:' + how)
+    for ep in sess['episodes'][ri] if ri < len(sess.get('episodes', [])) else []:
+        out.count('delayed:episode:' + ep)
+    succeeded = {tn for e, tn, _ in obs['events'] if e == 'success'}
+    uptodate = {tn for e, tn, _ in obs['events'] if e == 'uptodate'}
+    for i in sess['consumers']:
+        nm, t = w.names[i], obs['live'][i]
+        kind = 'single(takes-over-placeholder)' if t['sub_of'] is None else 'sub-task'
+        lg = [l for l in obs['logged'] if l['task'] == nm and 'kw' in l]
+        if not lg:
+            out.count('delayed:consumer:%s:%s' % (kind, 'up-to-date' if nm in uptodate else 'not-executed'))
+            continue
+        kw = lg[0]['kw']
+        out.count('delayed:consumer:%s:executed' % kind)
+        if t['calc_dep']:
+            cn = w.names[t['calc_dep'][0]]
+            out.count('delayed:calc-provider:' + ('executed-this-run' if cn in succeeded else 'up-to-date(saved values)' if cn in uptodate else 'other'))
+            if len(kw.get('dependencies', [])) > len(t['file_dep']):
+                out.count('delayed:dependencies-extended-by-calc')
+                out.nontrivial.add((idx, ri))
+        if kw.get('changed'):
+            out.count('delayed:changed:nonempty')
+            out.nontrivial.add((idx, ri))
+        for a, s_, k in t['getargs']:
+            if pname(a) in kw:
+                sn = w.names[s_]
+                out.count('delayed:getargs:%s:provider-%s' % ('dict' if k is None else 'key', 'executed-this-run' if sn in succeeded else 'up-to-date(values from DB)' if sn in uptodate else 'not-run(values from DB)'))
+                out.nontrivial.add((idx, ri))
 
 
 def thaw(x):
@@ -1074,12 +1566,28 @@ def replay(ctx, payload):
         if c[0] == 'SetDef' and len(c) > 2:
             c[2] = thaw_task(c[2])
         cmds.append(tuple(c))
-    sess = dict(idx=0, tasks=[thaw_task(t) for t in case['tasks']], cmds=cmds, backend=case.get('backend', 'json'))
+    sess = dict(idx=0, tasks=[thaw_task(t) for t in case['tasks']], cmds=cmds, backend=case.get('backend', 'json'), mode=case.get('mode', 'random'))
     out = Outcome()
+    if sess['mode'] == 'delayed':
+        print('session of the delayed family (consumers created at run time by create_after creators):')
+        for line in delayed_story(sess):
+            print('   ' + line)
     ints, runs, w = run_session(ctx, sess, out)
     judge_session(sess, w, runs, out)
     shapes = sorted({v['shape'] for v in out.violations})
-    for v in out.violations[:5]:
-        print('%s: %s' % (v['shape'], v['what']))
+    if sess['mode'] == 'delayed':
+        for obs in runs:
+            print('run %d: exit %s; %s' % (obs['run_no'], obs['rc'], ' '.join('%s:%s' % (e, tn) for e, tn, _ in obs['events'] if e != 'execute')))
+            for l in obs['logged']:
+                if 'kw' in l and w.ids[l['task']] == case.get('task'):
+                    print('      %s received %s' % (l['task'], {kk: ([os.path.basename(p) for p in v] if kk in ('dependencies', 'changed', 'targets') else v) for kk, v in l['kw'].items()}))
+    seen = set()
+    for v in out.violations:
+        if (v['shape'], v['what']) in seen or len(seen) >= 8:
+            continue
+        seen.add((v['shape'], v['what']))
+        run_no = v['case'].get('run') if isinstance(v.get('case'), dict) else None
+        known = v['shape'] != payload.get('shape') and any(k['match'] == v['shape'] for k in common.known_findings('C10'))
+        print('%s property=C10 shape=%s%s: %s' % ('KNOWN-FINDING' if known else 'VIOLATION', v['shape'], '' if run_no is None else ' run=%s' % run_no, v['what']))
     print('replayed: %d run(s), violation shapes now: %s' % (len(runs), shapes))
     return 1 if payload.get('shape') in shapes else 0
